@@ -2,12 +2,13 @@ package main
 
 import (
 	"context"
-	"io"
-	"log/slog"
 	"encoding/binary"
 	"errors"
+	"io"
+	"log/slog"
 	"sort"
 	"strings"
+	"sync"
 	"time"
 
 	"github.com/twmb/franz-go/pkg/kmsg"
@@ -28,11 +29,21 @@ type vsymMonS3 struct {
 	writes []string // every mutating call, in order
 	reads  []string
 	failUp func(key string) bool
+	mu     sync.Mutex // native runs only: segment and index are uploaded from different goroutines
+}
+
+func (s *vsymMonS3) lock() func() {
+	if vsym_Symbolic() {
+		return func() {}
+	}
+	s.mu.Lock()
+	return s.mu.Unlock
 }
 
 func newVsymMonS3() *vsymMonS3 { return &vsymMonS3{objs: map[string][]byte{}} }
 
 func (s *vsymMonS3) put(key string, body []byte) error {
+	defer s.lock()()
 	if s.failUp != nil && s.failUp(key) {
 		return vsymErrS3b
 	}
@@ -40,19 +51,26 @@ func (s *vsymMonS3) put(key string, body []byte) error {
 	s.objs[key] = append([]byte(nil), body...)
 	return nil
 }
-func (s *vsymMonS3) UploadSegment(ctx context.Context, key string, body []byte) error { return s.put(key, body) }
-func (s *vsymMonS3) UploadIndex(ctx context.Context, key string, body []byte) error   { return s.put(key, body) }
+func (s *vsymMonS3) UploadSegment(ctx context.Context, key string, body []byte) error {
+	return s.put(key, body)
+}
+func (s *vsymMonS3) UploadIndex(ctx context.Context, key string, body []byte) error {
+	return s.put(key, body)
+}
 func (s *vsymMonS3) DeleteSegment(ctx context.Context, key string) error {
+	defer s.lock()()
 	s.writes = append(s.writes, "del:"+key)
 	delete(s.objs, key)
 	return nil
 }
 func (s *vsymMonS3) DeleteIndex(ctx context.Context, key string) error {
+	defer s.lock()()
 	s.writes = append(s.writes, "del:"+key)
 	delete(s.objs, key)
 	return nil
 }
 func (s *vsymMonS3) DownloadSegment(ctx context.Context, key string, rng *storage.ByteRange) ([]byte, error) {
+	defer s.lock()()
 	s.reads = append(s.reads, key)
 	d, ok := s.objs[key]
 	if !ok {
@@ -71,6 +89,7 @@ func (s *vsymMonS3) DownloadSegment(ctx context.Context, key string, rng *storag
 	return append([]byte(nil), d[rng.Start:end+1]...), nil
 }
 func (s *vsymMonS3) DownloadIndex(ctx context.Context, key string) ([]byte, error) {
+	defer s.lock()()
 	s.reads = append(s.reads, key)
 	d, ok := s.objs[key]
 	if !ok {
@@ -79,6 +98,7 @@ func (s *vsymMonS3) DownloadIndex(ctx context.Context, key string) ([]byte, erro
 	return append([]byte(nil), d...), nil
 }
 func (s *vsymMonS3) ListSegments(ctx context.Context, prefix string) ([]storage.S3Object, error) {
+	defer s.lock()()
 	keys := make([]string, 0, len(s.objs))
 	for k := range s.objs {
 		if strings.HasPrefix(k, prefix) {
